@@ -446,8 +446,10 @@ define(
     [('tbrdiagnostics', None, False)],
     ENGINE_TRUST[:3] + FRAME_TRUST + [
         'ASSUMED contracts (bodies not verified, read off the code): '
-        '_detect_noisy_geos, _detect_outliers, _correlation_test write no '
-        'field and return a list / None / bool; utils.kwarg_subdict is pure',
+        '_detect_noisy_geos, _detect_outliers write no field and return a '
+        'list / None; utils.kwarg_subdict is pure',
+        'NumPy/SciPy ledger for the correlation test (corrcoef, tanh, arctanh, '
+        'sqrt, norm.ppf uninterpreted; table shape / x / y columns)',
         'pandas ledger for _create_analysis_data: unique(), map(dict), column '
         'assignment, drop_duplicates, pivot_table(sum) and reset_index as '
         'stated in engine/frame_ledger.py'],
@@ -464,7 +466,11 @@ define(
     '_create_analysis_data raises ValueError exactly when a group id has no '
     'row, otherwise stores the sum-pivot (date x period index, one column '
     'per group label) of ALL current screened rows with control -> x, '
-    'treatment -> y, period moved out of the index, and writes nothing else.',
+    'treatment -> y, period moved out of the index, and writes nothing else; '
+    '_correlation_test raises ValueError exactly when the analysis table has '
+    'fewer than 4 rows and otherwise passes exactly when the observed '
+    'correlation >= max(preferred, tanh(arctanh(min) + z(level)/sqrt(n-3))) '
+    '(_min_correlation_threshold verified, obs_cor inlined).',
     'DESIGN.md section 7, C19',
     'Level is the weaker (bounded) one.')
 
